@@ -267,3 +267,55 @@ def find_closures(m: str):
                 body_end -= 1
         res.append(dict(bar0=bar0, bar1=bar1, args=mm.group(2), body_start=body_start, body_end=body_end, braced=braced))
     return res
+
+
+BLOCK_KW = re.compile(r"(?:'[a-z_]+\s*:\s*)?(if|for|while|loop|match|unsafe)\b|\{")
+
+
+def top_statements(m: str, open_brace: int):
+    """Top-level statements of the block whose '{' is at open_brace (masked text).
+    Returns list of (start, end) with end exclusive (just after ';' or the closing '}')."""
+    close = match_close(m, open_brace)
+    res = []
+    i = open_brace + 1
+    while True:
+        while i < close and m[i].isspace():
+            i += 1
+        if i >= close:
+            break
+        start = i
+        blocklike = BLOCK_KW.match(m, i) is not None
+        depth = 0
+        j = i
+        end = None
+        while j < close:
+            ch = m[j]
+            if ch in OPEN:
+                depth += 1
+            elif ch in CLOSE:
+                depth -= 1
+                if depth == 0 and ch == '}' and blocklike:
+                    # block statement ends here unless followed by else / method chain / operator
+                    k = j + 1
+                    while k < close and m[k].isspace():
+                        k += 1
+                    rest = m[k:k + 5]
+                    if rest.startswith('else') or rest[:1] in ('.', '?') or rest[:1] == ';':
+                        pass
+                    else:
+                        end = j + 1
+                        break
+            elif ch == ';' and depth == 0:
+                end = j + 1
+                break
+            j += 1
+        if end is None:
+            end = close  # tail expression
+            # trim trailing whitespace
+            while end > start and m[end - 1].isspace():
+                end -= 1
+            res.append((start, end))
+            break
+        res.append((start, end))
+        i = end
+    return res
